@@ -384,6 +384,27 @@ def check_ssh1(st):
         st.execution(None, outcome=('crc', got == ref), root=('crc', n), nontrivial=('crc', n))
         if got != ref or got != wire.ssh1_crc(data):
             st.violation('ssh1-crc32-differs-from-reference', {'len': n, 'tool': got, 'ref': ref})
+    # data with zero bytes in front, behind, on both sides, and nothing but zero bytes (zero bytes in FRONT do not change this CRC; those behind do)
+    for core in (b'', b'\x01', b'\x00', b'ab\x00cd', bytes(range(1, 20))):
+        for lead in (0, 1, 3, 8):
+            for trail in (0, 1, 2, 4, 9):
+                data = b'\x00' * lead + core + b'\x00' * trail
+                got = SSH1.crc32(data)
+                ref = (zlib.crc32(data, 0xffffffff) ^ 0xffffffff) & 0xffffffff
+                st.execution(None, outcome=('crc-zeros', got == ref), root=('crc-zeros', core, lead, trail), nontrivial=('crc-zeros', core, lead, trail))
+                if got != ref:
+                    st.violation('ssh1-crc32-differs-from-reference:%s' % ('data-ends-in-zero-bytes' if trail or core.endswith(b'\x00') or not core else 'other'),
+                                 {'data': data.hex(), 'tool': got, 'ref': ref})
+    # the reader reads back correct packets of every length (every amount of padding, 1..8 bytes), whatever their last bytes are
+    for ln in range(1, 42):
+        for tail in (b'\x07', b'\x00', b'\x00\x00\x00\x00'):
+            body = (bytes((i * 7 + ln) & 0xff or 1 for i in range(ln)) + tail)[-ln:] if ln >= len(tail) else bytes([9] * ln)
+            pkt = wire.serialize(wire.ssh1_packet_tree(2, body))
+            t, payload = read_by_tool(pkt, 1)
+            st.execution(None, outcome=('ssh1-read-len', t == 2), root=('ssh1-read-len', ln, tail), nontrivial=('ssh1-read-len', ln, tail))
+            if t != 2 or payload != body:
+                st.violation('ssh1-reader-rejects-correct-packet:%s' % ('length-multiple-of-8' if (ln + 5) % 8 == 0 else 'data-ends-in-zero-bytes' if body.endswith(b'\x00') else 'other'),
+                             {'body_length': ln, 'packet_length_field': ln + 5, 'type': t, 'packet': pkt.hex()[:80]})
     # the reader accepts a correct packet and rejects every single-bit corruption
     body = wire.ssh1_pubkey_payload(0x48, 0x0c, 64, 32)[:27]
     pkt = wire.serialize(wire.ssh1_packet_tree(2, body))
